@@ -32,6 +32,8 @@ lemmas in `Proofs/StreamChunked.lean`):
   failed, else the next request is parsed from exactly the text behind the message (`resync rest` when
   the handler saw end-of-stream, `either rest` = that or closed, depending on buffering, when
   `skipRest` had to drain);
+  `chunked_resync_exact_folded`: the same when fields are followed by obs-fold continuation lines
+  (leading SP/HTAB, no colon), which the scanner's look-ahead joins to the field;
   `chunked_resync_exact_unread`: the same for ANY trailer lines without LF (no colon needed) as long as
   the handler has not been told end-of-stream (the drain uses `SkipTrailer`);
 * `trailer_name_zero_regression`: FOUND BY THIS PROOF, FIXED IN /repo (commit `fix: a trailer field whose
@@ -51,11 +53,12 @@ lemmas in `Proofs/StreamChunked.lean`):
   whole connection nothing but that request's response follows it.
 
 TODO-OPEN:
-* trailer lines that begin with a blank (obs-fold continuation: the scanner's look-ahead `contExtra`
-  joins them to the previous field) and trailer sections with a repeated `0\r\n` line in front (hertz
-  skips and counts it — see the example below —, the strict grammar has no such line): both are outside
-  `encTrailer ls` with `TrFieldOk` lines, so `chunked_resync_exact` says nothing about them on the
-  read-to-the-end path (`chunked_resync_exact_unread` covers them on the drain path);
+* trailer lines that begin with a blank AND contain a colon (the look-ahead does not join them; they are
+  scanned as a field whose name has a leading blank and rejected) and trailer sections with a
+  repeated `0\r\n` line in front (hertz skips and counts it — see the example below —, the strict
+  grammar has no such line): both are outside `encTrailer (fieldLines fs)` with `TrField.Ok` fields, so
+  `chunked_resync_exact_folded` says nothing about them on the read-to-the-end path
+  (`chunked_resync_exact_unread` covers them on the drain path);
 * `chunked_read_succeeds` for a non-empty trailer keeps its hypothesis that the trailer reader accepts
   the section (it may legitimately reject: forbidden names, blank in a name);
 * that every encoding accepted by `Spec.Http.chunksAux` is a `ChunkedMsg` (the converse direction
@@ -199,6 +202,37 @@ theorem chunked_resync_exact (cfg : Cfg) (e : End) (hd : ReqHead) (c : Consume) 
   rw [htr]
   exact readTrailerReq_lines cfg e hd.trailer ls rest hls
 
+/-- (2) with obs-fold: every trailer field may be followed by continuation lines (`TrContOk`: leading SP
+or HTAB, no LF, no colon), which the scanner's look-ahead joins to the field; the statement is the same. -/
+theorem chunked_resync_exact_folded (cfg : Cfg) (e : End) (hd : ReqHead) (c : Consume) (m : ChunkedMsg)
+    (fs : List TrField) (rest : Bytes) (r : ReqOut) (a : After) (hcl : hd.cl = -1) (hm : m.Wf)
+    (hfs : ∀ f ∈ fs, TrField.Ok f) (htr : m.trailer = encTrailer (fieldLines fs))
+    (h : streamBody cfg e hd (m.bytes ++ rest) c = .ok (r, a)) :
+    a = if r.got.err then .closed else if r.got.eof then .resync rest else .either rest := by
+  rw [streamBody_chunked cfg e hd _ c hcl] at h
+  simp only [Except.ok.injEq, Prod.mk.injEq] at h
+  rw [← h.1, ← h.2]
+  refine chunked_after cfg e hd.trailer c m hm (fieldLines fs) (fieldLines_lineOk fs hfs) htr rest _ (fun _ => ?_)
+  rw [htr]
+  exact readTrailerReq_fields cfg e hd.trailer fs rest hfs
+
+/-- non-vacuity of `chunked_resync_exact_folded`: trailer `X:1\r\n 2\r\n\t3\r\nY:4\r\n\r\n`, read to the end. -/
+example : ∀ f ∈ [(([88, 58, 49], [[32, 50], [9, 51]]) : TrField), ([89, 58, 52], [])], TrField.Ok f := by
+  have hx : TrFieldOk [88, 58, 49] :=
+    ⟨by decide, by decide, by intro c t hct; simp only [List.cons.injEq] at hct; rw [← hct.1]; decide⟩
+  have hy : TrFieldOk [89, 58, 52] :=
+    ⟨by decide, by decide, by intro c t hct; simp only [List.cons.injEq] at hct; rw [← hct.1]; decide⟩
+  intro f hf
+  simp only [List.mem_cons, List.not_mem_nil, or_false] at hf
+  rcases hf with hf | hf <;> subst hf
+  · refine ⟨hx, ?_⟩
+    intro l hl
+    simp only [List.mem_cons, List.not_mem_nil, or_false] at hl
+    rcases hl with hl | hl <;> subst hl
+    · exact ⟨by decide, by decide, 32, [50], rfl, Or.inl rfl⟩
+    · exact ⟨by decide, by decide, 9, [51], rfl, Or.inr rfl⟩
+  · exact ⟨hy, by intro l hl; simp at hl⟩
+
 /-- (2) for any trailer lines without LF (a colon is not needed): as long
 as the handler has not been told end-of-stream, the drain (`skipRest`) ends exactly behind the message. -/
 theorem chunked_resync_exact_unread (cfg : Cfg) (e : End) (hd : ReqHead) (c : Consume) (m : ChunkedMsg)
@@ -301,6 +335,12 @@ example : (msgOf (encTrailer [[88, 58, 49]])).Wf ∧ (∀ l ∈ [[88, 58, 49]], 
 /-- outside `chunked_resync_exact` (the line `0` has no colon), shown for the record: a repeated `0\r\n`
 line in front of the empty line is skipped and counted by the repaired `parseTrailer`; in sync. -/
 example : (streamBody {} .eof { cl := -1 } ((msgOf [48, 13, 10, 13, 10]).bytes ++ [71, 69, 84])
+    { readSize := 3, stopAfter := 9 }).toOption.map (fun p => (p.1.got.bytes, p.1.got.eof, p.1.got.err, p.2)) =
+    some ([97, 98, 99, 100, 101], true, false, .resync [71, 69, 84]) := by decide +kernel
+
+/-- the folded trailer `X:1\r\n 2\r\n\t3\r\nY:4\r\n\r\n` read to the end: in sync. -/
+example : (streamBody {} .eof { cl := -1 }
+    ((msgOf (encTrailer (fieldLines [([88, 58, 49], [[32, 50], [9, 51]]), ([89, 58, 52], [])]))).bytes ++ [71, 69, 84])
     { readSize := 3, stopAfter := 9 }).toOption.map (fun p => (p.1.got.bytes, p.1.got.eof, p.1.got.err, p.2)) =
     some ([97, 98, 99, 100, 101], true, false, .resync [71, 69, 84]) := by decide +kernel
 
